@@ -140,6 +140,8 @@ func init() {
 	for i := 0; i < r.NumMethod(); i++ {
 		reservedGetters[r.Method(i).Name] = true
 	}
+	// the generated type embeds *container.Container, so the name of that field is taken as well
+	reservedGetters[r.Elem().Name()] = true
 }
 
 func ValidateServiceGetter(s Service) error {
